@@ -68,7 +68,7 @@ func init() {
 		},
 	}
 	cfgs["C20"] = &propCfg{
-		quickRuns: 30000, thoroughRuns: 4000000,
+		quickRuns: 24000, thoroughRuns: 4000000,
 		quickBudget: 150 * time.Second, thoroughBudget: 14 * time.Minute,
 		raceShare: 2, singleProc: true, freshEvery: 16,
 		requiredProbes: []string{
